@@ -330,10 +330,28 @@ def run(tier, seed, build):
             res.count("verdict:" + v.split(":")[0])
             res.violations.append({"signature": v, "case": case, "impl": im, "spec": spec})
     end_to_end(res, rng, 120 if tier == "quick" else 1500)
+    # ---- what the property says about the USE of the swaps (outside construct_call_swaps): the substitution
+    # applied when inlining (simultaneous, the implicit `self` of an initialiser) and the arity diagnostic
+    # reaching the user for every resolved call (callees with an empty IR included), through the real pipeline
+    from props import c04e2e
+    c04e2e.unbind_stage(res, random.Random(seed + 404), 600 if tier == "quick" else 6000, model)
+    c04e2e.module_stage(res, random.Random(seed + 4040), 36 if tier == "quick" else 600, model,
+                        cli_sample=4 if tier == "quick" else 30)
+    res.rule += ("; substitution stage: (signature, accepted call whose arguments are the callee's own parameter names "
+                 "permuted / overlapping, callee IR rooted at the parameters) through construct_call_swaps ; "
+                 "unbind_ir_with_call_swaps vs Lean Swaps.construct ; Results.unbindIr vs CPython's binding; module stage: "
+                 "generated modules (permuted arguments into def / async / lambda / static-method callees, recursive and "
+                 "two-hop permutations, class initialisers stored into names / attributes / subscripts / annotated targets / "
+                 "self.member / returned / not stored, callees with an EMPTY IR called legally and illegally) in the target "
+                 "file (also vs the Lean pipeline model) and in a followed import, in-process and through the CLI")
     res.assumptions = [
         "a real call of a real function with that signature is Python's binding rule",
         "[interp] a call Python rejects only for a missing required argument need not be diagnosed (rattr's CallInterface has no defaults)",
         "[interp] *args/**kwargs parameters are expected to be mapped to their stand-ins whenever the parameter exists",
+        "module stage: the spelled name of an assignment target / argument follows the README naming rules (`t[0]` is `t[]`); "
+        "a diagnostic is attributed to a call by its line; static-method callees only where the call is resolved "
+        "(class defined before the caller; not through `from m import K`)",
+        "[interp] the one-step unrolling of a recursive call is demanded, the rest of its orbit is allowed (C03's subject)",
     ]
     return res
 
@@ -402,5 +420,8 @@ def end_to_end(res, rng, n):
 def replay(path):
     import json
     j = json.load(open(path))
+    if isinstance(j.get("case"), dict) and j["case"].get("stage") == "module":
+        from props import c04e2e
+        return c04e2e.replay_case(j)
     print(json.dumps(j, indent=1))
     return 0
